@@ -57,6 +57,7 @@ def map_scenario(sc):
     pump_closed = set(); pump_done = set(); pubclose_seen = set()
     pump_holds = {}; delivered_early = set()
     rh_ids = []; g2r = {}
+    outcomes = {}; failed_msgs = set()
     # a NEGATIVE observation (the poll of routersCloseCh saw it open) is stamped after the fact and can be overtaken by
     # the close and its observers: its model step is placed as early as the log allows = right after the same goroutine's
     # preceding stamp (ctx_done)
@@ -126,10 +127,16 @@ def map_scenario(sc):
             if x is not None: lab('LMsg %d' % x); H.append(('AStart %d' % x, e))
         elif p == 'api.handler.end':
             x = m_of(k[1])
-            if x is not None: lab('LFinish %d' % x); H.append(('AEnd %d' % x, e))
+            if x is not None:
+                failed = len(k) > 2 and k[2] in ('err', 'panic')      # error return or (recovered) panic: nothing is published
+                lab(('LFail %d' if failed else 'LFinish %d') % x); H.append(('AEnd %d' % x, e))
+                if failed: failed_msgs.add(x)
+                outcomes[k[2] if len(k) > 2 else 'ok'] = outcomes.get(k[2] if len(k) > 2 else 'ok', 0) + 1
         elif p in ('message.ack.locked', 'message.nack.locked'):
             x = m_of(k[0])
-            if x is not None: lab('LMsg %d' % x); lab('LMsg %d' % x); H.append(('ASettle %d' % x, e))
+            if x is not None:
+                if x not in failed_msgs: lab('LMsg %d' % x)       # Publish returned (folded: no own hook in the Router)
+                lab('LMsg %d' % x); H.append(('ASettle %d' % x, e))
         elif p == 'router.handler.msg.done':
             x = m_of(k[1])
             if x is not None: lab('LMsg %d' % x)
@@ -204,7 +211,7 @@ def map_scenario(sc):
             lab('LRun'); lab('LRun')
         elif p == 'router.close.run_saw_closed':
             lab('LRun')
-    m.labels = L; m.hist = H
+    m.labels = L; m.hist = H; m.outcomes = outcomes
     return m
 
 def model_handlers(sc):
@@ -270,7 +277,7 @@ TRUSTED_BASE = [
     'message/decorator.go (pump + Close) and pubsub/sync/waitgroup.go (folded into the closer\'s select) and tied to them by schedule replay of the stamped hook log',
     'subscriber contract of the model: the channel closes after Close() was called or (ctx-honouring subscribers) after the Subscribe context ended; whether and when the subscriber\'s Close() RETURNS is an environment choice (it may block for ever); both locks of Close are modelled and RunHandlers calls compete for handlersLock; what RunHandlers starts and Stop concurrent with Close are outside the model (C10)',
     'the stamp discipline (acquire: stamp after; release: stamp before; close(closingInProgressCh) placed as late as the log allows; pump steps without a hook inserted as late as possible) and the Python mapper checks/c06.py',
-    'Router/CloseMonitor.v mon_run judges the implementation history; it is PROVED to accept every API trace of the repaired model (C06_acceptor_accepts_model) and to reject the D5/D12 witness traces; the mapping of hook stamps to API events is trusted',
+    'Router/CloseMonitor.v mon_run judges the implementation history; it is PROVED to accept every API trace of the repaired model, event by event and at rest (C06_model_accepted, C06_model_accepted_at_rest) and to reject the D5/D12 witness traces; the mapping of hook stamps to API events is trusted',
 ]
 ASSUMPTIONS = [
     '"every Close call returns" on the implementation is a watchdog (CloseTimeout + 4 s); "Close times out although nothing runs" is judged structurally (a subscriber that was never asked to close), never by wall-clock alone',
@@ -302,6 +309,7 @@ def classify(res, scs, mapped, reps, mons):
         if sc.get('unstarted'): res.count('with a handler added but never started')
         if sc.get('late_handler'): res.count('RunHandlers concurrent with Close (late handler %s)' % ('started' if sc.get('late_started') else 'not started'))
         res.count('hook events', len(sc['events'])); res.count('model labels replayed', len(mp.labels)); res.count('api events', len(mp.hist))
+        for o, n in mp.outcomes.items(): res.count('handler outcome ' + o, n)
         res.count('Close calls', len(sc['calls'])); res.count('Close calls returning an error', sum(1 for c in sc['calls'] if c['err']))
         parked = sum(r['parked'] for r in sc['rules']); res.count('goroutines parked by a rule', parked)
         res.count('park rules infeasible (timed out)', sum(r['timed_out'] for r in sc['rules']))
